@@ -711,3 +711,212 @@ class FindExpression(Contract):
 
 
 CONTRACTS.append(FindExpression())
+
+
+# ============================================================================= _SearchIndexer.build_index: the per-key value index
+# Raw document values (before the hashable conversion) are abstract (sort Raw): a value is a mapping (RDICT), a list (RLIST) or a scalar;
+# a mapping has keys (RHAS / RGET).  The index key of a raw value is KEYJ(v): the hashable tuple of a list, the placeholder for a
+# mapping, the value itself otherwise.  `_TypedSetDefaultDict` is used through its contract: buckets are reached up to keyeq
+# (dict key equality with floats kept apart -- the very abstraction SymIndex.wf() assumes; the conflation of True/1 inside it is F3).
+
+Raw = z3.DeclareSort("Raw")
+RDICT = z3.Function("RDICT", Raw, z3.BoolSort())
+RLIST = z3.Function("RLIST", Raw, z3.BoolSort())
+RHAS = z3.Function("RHAS", Raw, z3.StringSort(), z3.BoolSort())
+RGET = z3.Function("RGET", Raw, z3.StringSort(), Raw)
+TOHASH = z3.Function("TOHASH", Raw, J)          # _to_hashable(list)
+SCALAR = z3.Function("SCALAR", Raw, J)          # a scalar document value as index key
+BI_ID = z3.Function("BI_ID", z3.IntSort(), Id)
+BI_DOC = z3.Function("BI_DOC", z3.IntSort(), Raw)
+BI_N = z3.Int("bi_n")
+
+
+def KEYJ(v):
+    return z3.If(RLIST(v), TOHASH(v), z3.If(RDICT(v), J.Ph, SCALAR(v)))
+
+
+class SRaw(Sym):
+    def __init__(self, e):
+        self.e = e
+
+    def sym_getitem(self, ex, k):
+        if not isinstance(k, str):
+            raise Unsupported("document subscript with a non-string")
+        if ex.decide(z3.And(RDICT(self.e), RHAS(self.e, z3.StringVal(k))), f"has[{k}]"):
+            return SRaw(RGET(self.e, z3.StringVal(k)))
+        # a missing key is a KeyError, a subscript on a scalar / a list with a string index a TypeError: both mean "no value under this key"
+        raise RaiseSignal(KeyError(k) if ex.decide(RDICT(self.e), "is-mapping") else TypeError("not subscriptable with a string"))
+
+    def sym_contains(self, ex, k):
+        if isinstance(k, str):
+            return SBool(z3.And(RDICT(self.e), RHAS(self.e, z3.StringVal(k))))
+        raise Unsupported("`in` document with a non-string")
+
+    def sym_type(self, ex):
+        return STypeOfRaw(self.e)
+
+    def sym_isinstance(self, ex, cls):
+        if cls is list:
+            return SBool(RLIST(self.e))
+        if cls is dict:
+            return SBool(RDICT(self.e))
+        raise Unsupported("isinstance of a raw document value")
+
+
+class STypeOfRaw(Sym):
+    def __init__(self, e):
+        self.e = e
+
+    def sym_is(self, ex, other):
+        if other is list:
+            return SBool(RLIST(self.e))
+        if other is dict:
+            return SBool(RDICT(self.e))
+        raise Unsupported("type(v) is <this>")
+
+
+class SItems(Sym):
+    def sym_iter(self, ex):
+        def at(interp, i):
+            g = interp.ctx.ghost
+            g["bi_i"], g["bi_adds"] = i, []
+            return (SId(BI_ID(i)), SRaw(BI_DOC(i)))
+        return CutSeq(BI_N, at, label="items")
+
+
+class SIndexerSelf(Sym):
+    def sym_getattr(self, ex, name):
+        if name == "items":
+            return NativeStub(lambda: SItems(), "dict.items")
+        raise Unsupported(f"indexer.{name}")
+
+
+class SBuildIdx(Sym):
+    """the _TypedSetDefaultDict under construction: IN(k, x) = id x is in the bucket reached by key k"""
+
+    def __init__(self, ctx):
+        self.ctx = ctx
+        self.IN = lambda k, x: z3.BoolVal(False)
+
+    def sym_getitem(self, ex, k):
+        if isinstance(k, SJ):
+            kj = k.e
+        elif isinstance(k, SRaw):
+            kj = SCALAR(k.e)
+        elif getattr(k, "qual", None) == f"{M}._DictPlaceholder":
+            kj = J.Ph
+        else:
+            raise Unsupported("index[...] key")
+        return SBucket(self, kj)
+
+
+class SBucket(Sym):
+    def __init__(self, idx, kj):
+        self.idx, self.kj = idx, kj
+
+    def sym_getattr(self, ex, name):
+        if name == "add":
+            def add(x):
+                if not isinstance(x, SId):
+                    raise Unsupported("bucket.add of a non-id")
+                cur, kj, e = self.idx.IN, self.kj, x.e
+                self.idx.IN = lambda k, y: z3.Or(cur(k, y), z3.And(keyeq(k, kj), y == e))
+                self.idx.ctx.ghost["bi_adds"].append((kj, e))
+            return NativeStub(add, "set.add")
+        raise Unsupported(f"bucket.{name}")
+
+
+class BuildIdxCtx(Ctx):
+    def instantiate(self, interp, rc, args, kw):
+        if rc.name == "_TypedSetDefaultDict" and not args and not kw:
+            interp.ex.assumptions_used.add("_TypedSetDefaultDict: a bucket is reached by every key that is keyeq to the one it was created with (dict semantics with floats kept apart)")
+            o = SBuildIdx(self)
+            self.ghost["idx"] = o
+            return o
+        return NotImplemented
+
+
+def stub_to_hashable(interp, b):
+    o = b["obj"]
+    if isinstance(o, SRaw):
+        return SJ(TOHASH(o.e))
+    raise Unsupported("_to_hashable argument")
+
+
+class BuildIndexFn(Contract):
+    target = f"{M}._SearchIndexer.build_index"
+    properties = ("C06", "C18")
+    ctx_class = BuildIdxCtx
+    callees = {"signac._utility._to_hashable": stub_to_hashable}
+
+    def cases(self):
+        return [{"key": k} for k in ("a", "a.b", "sp.a.b")]
+
+    def nav(self, case, d):
+        """(defined, value) of the dotted key in raw document d"""
+        ok, v = z3.BoolVal(True), d
+        for n in case["key"].split("."):
+            ok = z3.And(ok, RDICT(v), RHAS(v, z3.StringVal(n)))
+            v = RGET(v, z3.StringVal(n))
+        return ok, v
+
+    def spec(self, case, upto):
+        j = z3.Int("bj")
+
+        def f(k, x):
+            ok, v = self.nav(case, BI_DOC(j))
+            return z3.Exists([j], z3.And(0 <= j, j < upto, BI_ID(j) == x, ok, keyeq(k, KEYJ(v))))
+        return f
+
+    def loops(self, case):
+        k = z3.Const("bk", J)
+        x = z3.Const("bx", Id)
+
+        def cur_in(interp, fr):
+            v = interp.lookup(fr, "index")
+            if not isinstance(v, SBuildIdx):
+                raise Unsupported("index is not the typed dict under construction")
+            return v
+
+        def inv(interp, fr, i, seq):
+            o = cur_in(interp, fr)
+            s = self.spec(case, i)
+            jj = z3.Int("ij")
+            clean = z3.ForAll([jj], z3.Implies(z3.And(0 <= jj, jj < i), z3.Not(RHAS(BI_DOC(jj), z3.StringVal(case["key"]))))) if "." in case["key"] else z3.BoolVal(True)
+            return z3.And(z3.ForAll([k, x], o.IN(k, x) == s(k, x)), clean)
+
+        def hv(interp, fr, tag):
+            o = cur_in(interp, fr)
+            f = z3.Function(interp.ex.fresh_name("IN"), J, Id, z3.BoolSort())
+            o.IN = lambda kk, xx, f=f: f(kk, xx)
+        return {"items": LoopSpec("documents", inv, havoc={"$index": hv}, scratch=("_id", "doc", "v", "n"), heap_frame=lambda interp, fr, w: None)}
+
+    def setup(self, interp, case):
+        ex = interp.ex
+        a, b = z3.Ints("ia ib")
+        v = z3.Const("rv", Raw)
+        ex.assume(z3.And(BI_N >= 0, z3.ForAll([a, b], z3.Implies(z3.And(0 <= a, a < b, b < BI_N), BI_ID(a) != BI_ID(b))),
+                         z3.ForAll([a], z3.Implies(z3.And(0 <= a, a < BI_N), RDICT(BI_DOC(a)))), z3.ForAll([v], z3.Not(z3.And(RDICT(v), RLIST(v))))))
+        return [SIndexerSelf(), case["key"]], {}, {}
+
+    def post(self, interp, case, pre, outcome):
+        from signac.errors import InvalidKeyError
+        ex, g = interp.ex, interp.ctx.ghost
+        j = z3.Int("pj")
+        dotted = "." in case["key"]
+        bad = z3.Exists([j], z3.And(0 <= j, j < BI_N, RHAS(BI_DOC(j), z3.StringVal(case["key"])))) if dotted else z3.BoolVal(False)
+        if outcome[0] == "return":
+            r = outcome[1]
+            if not isinstance(r, SBuildIdx):
+                ex.oblige(self.oname("ensures:returns_the_index"), False, note=repr(r))
+                return
+            k, x = z3.Const("pk", J), z3.Const("px", Id)
+            s = self.spec(case, BI_N)
+            ex.oblige(self.oname("ensures:a_document_id_is_under_key_k_iff_the_document_has_a_value_under_the_dotted_key_whose_index_key_is_k"), z3.ForAll([k, x], r.IN(k, x) == s(k, x)))
+            ex.oblige(self.oname("ensures:no_document_spells_the_dotted_key_as_one_literal_key"), z3.Not(bad))
+        else:
+            e = outcome[1]
+            ex.oblige(self.oname("raises:InvalidKeyError_only_if_a_document_has_the_dotted_key_as_one_literal_key"), z3.And(z3.BoolVal(isinstance(e, InvalidKeyError)), bad), note=repr(e))
+
+
+CONTRACTS.append(BuildIndexFn())
